@@ -14,6 +14,10 @@ func init() {
 			"SerializeSize (settled by the round-trip tests on the first seed), behaviour on corrupted (as opposed to truncated / short-read) data, byte counts returned together with an error.",
 		Assumptions: []string{"io.ReadFull / io.ReadAtLeast return a nil error only when the buffer was filled (stdlib contract)", "io.Writer.Write returns a non-nil error when it writes fewer bytes than given (stdlib contract)"},
 		Rules: []RuleDef{
+			{ID: "R13e", Statement: "a restored forest carries the constructor's configuration", Run: func(p *Program, r *Report) {
+				r.Rule("R13e", "RESTORE-SETS-CONFIG: a restore function starts from the constructor's value or stores every field the constructor stores (a restored forest must also evolve like the original)")
+				checkRestoreConfig(p, r, "R13e")
+			}},
 			{ID: "R13", Statement: "io.Reader / io.Writer discipline of the serialization code", Run: runIODiscipline},
 		},
 	})
